@@ -1,3 +1,3 @@
-(* _client.py :: ncrypt_unprotect_secret :: ('callarg', '_sync_get_key', 0, 5) :  blob.key_identifier.l2 *)
-Definition k_onl_unprot_arg5 (blob_key_identifier_l2 : Z) : Z :=
-  blob_key_identifier_l2.
+(* _client.py :: ncrypt_unprotect_secret :: shape kernel :  _sync_get_key(... 5: blob.key_identifier.l2  [= DPAPINGBlob.unpack(data).key_identifier.l2] ...) *)
+Definition k_onl_unprot_arg5 (l2 : Z) : Z :=
+  l2.
